@@ -1,0 +1,40 @@
+//go:build verif
+
+// Contracts for the verification machinery in /verif (comment-only file, never compiled
+// into a normal build). Syntax and semantics: /verif/DESIGN.md.
+
+package gorums
+
+// ---------------------------------------------------------------- errors.go
+
+//@ func (QuorumCallError).Is
+//@   props C02 C08
+//@   nopanic C02
+//@   ensures[C02.g] typeis(target, "QuorumCallError") ==> result == (e.cause == target.(QuorumCallError).cause)
+//@   ensures[C02.g] !typeis(target, "QuorumCallError") ==> result == (e.cause == target)
+
+// ---------------------------------------------------------------- node.go (sorters)
+
+//@ specfun apply_lessFunc(Int, Int, Int) Bool
+//@ funtype lessFunc pure apply_lessFunc
+
+//@ definerec lex(r (Array Int Int), o Int, n Int, k Int, p Int, q Int) Bool = \
+//@     ite(k >= n - 1, apply_lessFunc(r[o+k], p, q), \
+//@         apply_lessFunc(r[o+k], p, q) || (!apply_lessFunc(r[o+k], q, p) && lex(r, o, n, k+1, p, q)))
+
+//@ func (*MultiSorter).Less
+//@   props C19
+//@   nopanic C19
+//@   requires ms != nil && len(ms.less) >= 1
+//@   requires 0 <= i && i < len(ms.nodes) && 0 <= j && j < len(ms.nodes)
+//@   requires forall(m, 0, len(ms.less), ms.less[m] != nil)
+//@   loop "for k = 0; k < len(ms.less)-1; k++"
+//@     invariant 0 <= k && k <= len(ms.less) - 1
+//@     invariant p == old(ms.nodes[i]) && q == old(ms.nodes[j])
+//@     invariant lex(row(ms.less), off(ms.less), len(ms.less), 0, p, q) == lex(row(ms.less), off(ms.less), len(ms.less), k, p, q)
+//@     decreases len(ms.less) - 1 - k
+//@   ensures[C19.b] result == lex(row(ms.less), off(ms.less), len(ms.less), 0, ms.nodes[i], ms.nodes[j])
+
+//@ lemma C19.ID.irreflexive [C19.a] (a *RawNode): a != nil ==> !call(ID, a, a)
+//@ lemma C19.Port.irreflexive [C19.a] (a *RawNode): a != nil ==> !call(Port, a, a)
+//@ lemma C19.LastNodeError.irreflexive [C19.a] (a *RawNode): a != nil && a.channel != nil ==> !call(LastNodeError, a, a)
